@@ -4,6 +4,7 @@ package main
 
 import (
 	"fmt"
+	"go/ast"
 	"go/token"
 	"go/types"
 	"strconv"
@@ -31,6 +32,7 @@ func (u *Unit) call(f *Frame, st *State, cc *ssa.CallCommon, res ssa.Value, pos 
 		recv := u.value(f, st, cc.Value)
 		key := u.ctx.ifaceKey(cc)
 		u.oblige(f, st, "nil", "invoke:"+cc.Method.Name(), fmt.Sprintf("(not (= %s 0))", recv.T), pos)
+		u.callSiteObligationsNamed(f, st, cc.Method.Name(), "", key, nil, cc.Signature(), append([]Val{recv}, args...), pos)
 		if con := u.ctx.externs[key]; con != nil {
 			return u.contractCall(f, st, con, nil, append([]Val{recv}, args...), resTy, pos, key)
 		}
@@ -63,6 +65,17 @@ func (u *Unit) call(f *Frame, st *State, cc *ssa.CallCommon, res ssa.Value, pos 
 	u.callSiteObligations(f, st, callee, key, args, pos)
 	if r, ok := u.intrinsic(f, st, key, callee, args, resTy, pos); ok {
 		return r
+	}
+	// quantifier helpers called from ghost code: translate the call expression itself
+	if u.ctx.isGhostFile(callee) && u.ctx.isGhostFile(f.fn) && (callee.Name() == "forall" || callee.Name() == "exists") {
+		if ce := u.ctx.callExprAt(pos); ce != nil {
+			env := u.loopEnv(f, st, f.fn, -1)
+			ne := len(u.errs)
+			v := env.expr(ce)
+			if len(u.errs) == ne {
+				return []Val{{T: u.em.define(callee.Name(), "Bool", v.T), Ty: types.Typ[types.Bool]}}
+			}
+		}
 	}
 	// ghost code calling a ghost specification function: evaluate it the way specifications
 	// do (AST translation), so that asserts in lemma bodies and contract clauses agree syntactically
@@ -382,6 +395,27 @@ func (u *Unit) intrinsic(f *Frame, st *State, key string, callee *ssa.Function, 
 		}
 	}
 	switch key {
+	case "bytes.HasPrefix":
+		// prefix given by a frozen global literal: ground comparison
+		if ce := u.ctx.callExprAt(pos); ce != nil && len(ce.Args) == 2 {
+			if id, ok := ce.Args[1].(*ast.Ident); ok {
+				if pkg := u.ctx.pkgOf(f.fn); pkg != nil {
+					if o, ok := pkg.Types.Scope().Lookup(id.Name).(*types.Var); ok {
+						if g := u.ctx.globalOf(o); g != nil {
+							if cs, ok := u.ctx.frozenGlobal(g); ok {
+								et := o.Type().Underlying().(*types.Slice).Elem()
+								h := u.heapGet(st, u.em.elemHeapName(et), et)
+								parts := []string{fmt.Sprintf("(>= (s_len %s) %d)", args[0].T, len(cs))}
+								for i := range cs {
+									parts = append(parts, fmt.Sprintf("(= (select (select %s (s_base %s)) (+ (s_off %s) %d)) (%s %d))", h, args[0].T, args[0].T, i, u.frozenFn(g), i))
+								}
+								return one("(and "+strings.Join(parts, " ")+")", types.Typ[types.Bool])
+							}
+						}
+					}
+				}
+			}
+		}
 	case "math.Inf":
 		return one("INF", f64)
 	case "math.Round":
@@ -822,13 +856,25 @@ func literalLen(t string) (int, bool) {
 
 // callSiteObligations: wiring obligations declared by the function under contract for calls it makes.
 func (u *Unit) callSiteObligations(f *Frame, st *State, callee *ssa.Function, key string, args []Val, pos token.Pos) {
-	if f.depth != 0 || f.pure || u.con == nil || len(u.con.CallSites) == 0 || f.fn != u.fn {
-		return
-	}
 	short := callee.Name()
 	lk := ""
 	if callee.Pkg != nil {
 		lk = u.ctx.localKey(callee)
+	}
+	var pn []string
+	for _, p := range callee.Params {
+		pn = append(pn, p.Name())
+	}
+	u.callSiteObligationsNamed(f, st, short, lk, key, pn, callee.Signature, args, pos)
+}
+
+// callSiteObligationsNamed: obligations declared with `callsite <callee> requires` in the
+// contract of the function being verified, for a call of the named callee (static call,
+// closure or interface method).  Besides arg_<param> / argN, the elements of a variadic
+// argument list built at the call are available as vararg0, vararg1, ...
+func (u *Unit) callSiteObligationsNamed(f *Frame, st *State, short, lk, key string, pnames []string, sig *types.Signature, args []Val, pos token.Pos) {
+	if f.depth != 0 || f.pure || u.con == nil || len(u.con.CallSites) == 0 || f.fn != u.fn {
+		return
 	}
 	for _, cs := range u.con.CallSites {
 		if cs.Callee != short && cs.Callee != lk && cs.Callee != key {
@@ -839,16 +885,26 @@ func (u *Unit) callSiteObligations(f *Frame, st *State, callee *ssa.Function, ke
 		for k, v := range env.vars {
 			vars[k] = v
 		}
-		for i, p := range callee.Params {
-			if i < len(args) && p.Name() != "" && p.Name() != "_" {
-				vars["arg_"+p.Name()] = args[i]
-				if _, clash := vars[p.Name()]; !clash {
-					vars[p.Name()] = args[i]
+		for i, p := range pnames {
+			if i < len(args) && p != "" && p != "_" {
+				vars["arg_"+p] = args[i]
+				if _, clash := vars[p]; !clash {
+					vars[p] = args[i]
 				}
 			}
 		}
 		for i, a := range args {
 			vars[fmt.Sprintf("arg%d", i)] = a
+		}
+		if sig != nil && sig.Variadic() && len(args) > 0 {
+			last := args[len(args)-1]
+			if sl, ok := last.Ty.Underlying().(*types.Slice); ok && last.T != "" {
+				h := u.heapGet(st, u.em.elemHeapName(sl.Elem()), sl.Elem())
+				for k := 0; k < 8; k++ {
+					vars[fmt.Sprintf("vararg%d", k)] = Val{T: fmt.Sprintf("(select (select %s (s_base %s)) (+ (s_off %s) %d))", h, last.T, last.T, k), Ty: sl.Elem()}
+				}
+				vars["nvarargs"] = Val{T: fmt.Sprintf("(s_len %s)", last.T), Ty: types.Typ[types.Int]}
+			}
 		}
 		env.vars = vars
 		u.oblige(f, st, "callsite", short+":"+cs.Clause.label(), env.boolExpr(cs.Clause.Expr), pos)
